@@ -148,6 +148,41 @@ fn interop_variant<V: Fv, R: RefImpl>(seed: u64, nkeys: usize, nmsgs: usize, hea
     }
 }
 
+/// Volume: many fresh signatures in both directions, cross-verified natively; one summary event per direction,
+/// every failing exchange promoted to a heavy event so that TLC says which side departs from the specification.
+fn interop_bulk<V: Fv, R: RefImpl>(seed: u64, count: usize, heavy: &mut Shards, light: &mut Shards) {
+    let mut rng = rng_for(seed, &format!("c16-bulk-{}", V::N));
+    let (sk, pk) = V::keygen(rng.gen());
+    let pkb = V::pk_to_bytes(&pk);
+    let (rpkb, rskb) = R::keypair();
+    let our_rpk = V::pk_from_bytes(&rpkb).ok();
+    let (mut f1, mut f2) = (0usize, 0usize);
+    for i in 0..count {
+        let msg = format!("bulk message {}", i).into_bytes();
+        let sig = V::sig_to_bytes(&V::sign(&msg, &sk));
+        if !R::verify(&msg, &to_ref_sig(&sig), &pkb) {
+            f1 += 1;
+            if f1 <= 3 {
+                heavy.emit(honest_event::<V>(&msg, &sig, &pkb, "bulk-ref-rejected-ours"));
+            }
+        }
+        if let (Some(rsig), Some(p)) = (R::sign(&msg, &rskb), &our_rpk) {
+            let ours = from_ref_sig::<V>(&rsig);
+            let ok = V::sig_from_bytes(&ours).map(|s| V::verify(&msg, &s, p)).unwrap_or(false);
+            if !ok {
+                f2 += 1;
+                if f2 <= 3 {
+                    heavy.emit(honest_event::<V>(&msg, &ours, &rpkb, "bulk-we-rejected-ref"));
+                }
+            }
+        } else {
+            f2 += 1;
+        }
+    }
+    light.emit(cross("bulk-ref-verifies-our-signatures", V::N, f1 == 0, &format!("{} of {} rejected", f1, count)));
+    light.emit(cross("bulk-we-verify-ref-signatures", V::N, f2 == 0, &format!("{} of {} rejected", f2, count)));
+}
+
 pub fn c16(args: &Args) {
     let seed = args.num("--seed", 1);
     let thorough = args.thorough();
@@ -156,5 +191,7 @@ pub fn c16(args: &Args) {
     let mut light = Shards::create(&dir, "cross", 1);
     interop_variant::<V512, Ref512>(seed, if thorough { 10 } else { 2 }, if thorough { 10 } else { 3 }, &mut heavy, &mut light);
     interop_variant::<V1024, Ref1024>(seed, if thorough { 4 } else { 1 }, if thorough { 8 } else { 3 }, &mut heavy, &mut light);
+    interop_bulk::<V512, Ref512>(seed, if thorough { 40000 } else { 3000 }, &mut heavy, &mut light);
+    interop_bulk::<V1024, Ref1024>(seed, if thorough { 10000 } else { 1000 }, &mut heavy, &mut light);
     println!("heavy {} light {}", heavy.finish(), light.finish());
 }
